@@ -246,6 +246,7 @@ def run_cli_merge(t: Dict[str, Any]) -> Dict[str, Any]:
         p_["metaData"] = {"version": f"9.{i}.later-file"}
     want = models.merge_reference(parts)
     names = ["zz-first.json", "mm-second.json", "aa-third.json", "kk-fourth.json"][: t["k"]]
+    repeat = core.derive(t["run_seed"], "repeat") % 3 == 0  # the first file named again at the end / spelled differently
     w = gw.World(f"c18m-{t['run_seed']}")
     viol: List[Dict[str, str]] = []
     try:
@@ -255,6 +256,10 @@ def run_cli_merge(t: Dict[str, Any]) -> Dict[str, Any]:
         for nm, p_ in zip(names, parts):
             (d / nm).write_bytes(models.dumps(p_))
             files.append(str(d / nm))
+        if repeat:
+            files.append(os.path.join(str(d), ".", names[0]) if core.derive(t["run_seed"], "spell") % 2 else files[0])
+            want = models.merge_reference(parts + [parts[0]])
+            probes["cli_merge_repeated_path"] += 1
         (d / "merged.json").write_bytes(models.dumps(want))
         env = gw.env_for(0, "", random.Random(0), default=True)
         r1 = gw.run_generator(w, t["plugin"], str(w.path("out_parts")), str(w.path("td1")), files, env)
@@ -263,11 +268,11 @@ def run_cli_merge(t: Dict[str, Any]) -> Dict[str, Any]:
         if r2["rc"] != 0:
             return _result(t, [], probes, skipped=f"plugin cannot generate the merged model: {_exc_class(r2['stderr_tail'])}")
         if r1["rc"] != 0:
-            viol.append({"sig": f"cli-merge-failed:{_exc_class(r1['stderr_tail'])}", "msg": f"`--model {' '.join(names)}` exits {r1['rc']} although the single merged file generates fine"})
+            viol.append({"sig": f"cli-merge-failed:{_exc_class(r1['stderr_tail'])}", "msg": f"`--model {' '.join(os.path.basename(f_) for f_ in files)}` exits {r1['rc']} although the single merged file generates fine"})
         else:
             df = gw.diff_trees(gw.owned_files(t["plugin"], w.path("out_merged")), gw.owned_files(t["plugin"], w.path("out_parts")))
             if df:
-                viol.append({"sig": f"cli-merge-differs:{t['plugin']}", "msg": f"`--model {' '.join(names)}` does not give plugin {t['plugin']} the first model extended in order by the others: {df[1][:300]}"})
+                viol.append({"sig": f"cli-merge-differs:{t['plugin']}", "msg": f"`--model {' '.join(os.path.basename(f_) for f_ in files)}` does not give plugin {t['plugin']} the first model extended in order by the others: {df[1][:300]}"})
     finally:
         w.destroy()
     return _result(t, viol, probes, evlog=["cli-merge", t["k"], t["plugin"], [v["sig"] for v in viol]])
@@ -346,7 +351,7 @@ def gen_gate_tasks(seed: int, tier: str) -> List[Dict[str, Any]]:
             tasks.append({"kind": "gate_multi", "run_seed": rs, "n": n, "plugin": gw.PLUGINS[(i + j) % 4], "position": pos,
                           "sub_seed": core.derive(rs, "sub") % 2**40, "prepopulate": (i + j) % 3})
     # merge through the real command line (valid files): argv order, first file's metaData
-    for i in range(8 if tier == "quick" else 120):
+    for i in range(12 if tier == "quick" else 120):
         rs = core.derive(seed, PROP, "cli-merge", i)
         tasks.append({"kind": "cli_merge", "run_seed": rs, "k": 2 + i % 3, "plugin": ["python", "rust", "python", "dotnet"][i % 4], "sub_seed": core.derive(rs, "sub") % 2**40})
     # unreadable model files
@@ -552,7 +557,7 @@ def _probes() -> Dict[str, int]:
     return {k: 0 for k in ["loads", "readbacks", "merges", "merge_files", "compares", "node_compares", "equal_pairs_judged", "unequal_pairs_judged",
                            "annotation_only_pair", "alias_compared", "flip_kept_valid", "fault_schema_invalid", "fault_not_json", "gate_invocations",
                            "gate_prepopulated", "second_file_bad", "violation_class_fired", "edits_applied", "edits_with_rare_kinds", "load_rejected_valid",
-                           "plugin_probe_unavailable", "reloads_same_objects", "first_file_bad", "default_model_bad", "truncation_points", "cli_merge_runs", "multi_violation_docs", "merged_vs_first_compares", "model_path_symlink_or_dotdot", "cross_class_compares", "twin_nodes_built", "merge_with_duplicates", "merge_with_empty_section", "merge_same_object_twice", "unreadable_enoent", "unreadable_eio", "unreadable_directory", "metadata_first_file"]}
+                           "plugin_probe_unavailable", "reloads_same_objects", "first_file_bad", "default_model_bad", "truncation_points", "cli_merge_runs", "cli_merge_repeated_path", "multi_violation_docs", "merged_vs_first_compares", "model_path_symlink_or_dotdot", "cross_class_compares", "twin_nodes_built", "merge_with_duplicates", "merge_with_empty_section", "merge_same_object_twice", "unreadable_enoent", "unreadable_eio", "unreadable_directory", "metadata_first_file"]}
 
 
 def _result(t: Dict[str, Any], viol: List[Dict[str, str]], probes: Dict[str, int], skipped: Optional[str] = None, evlog: Any = None) -> Dict[str, Any]:
@@ -1133,7 +1138,7 @@ def main(argv: List[str]) -> int:
         "run_kinds": kinds,
         "violation_classes_total": classes_total,
         "violation_classes_fired": classes_fired,
-        "faults_fired": {k: probes.get(k, 0) for k in ["fault_not_json", "fault_schema_invalid", "flip_kept_valid", "second_file_bad", "first_file_bad", "default_model_bad", "truncation_points", "cli_merge_runs", "multi_violation_docs", "merged_vs_first_compares", "model_path_symlink_or_dotdot", "cross_class_compares", "twin_nodes_built", "merge_with_duplicates", "merge_with_empty_section", "merge_same_object_twice", "violation_class_fired",
+        "faults_fired": {k: probes.get(k, 0) for k in ["fault_not_json", "fault_schema_invalid", "flip_kept_valid", "second_file_bad", "first_file_bad", "default_model_bad", "truncation_points", "cli_merge_runs", "cli_merge_repeated_path", "multi_violation_docs", "merged_vs_first_compares", "model_path_symlink_or_dotdot", "cross_class_compares", "twin_nodes_built", "merge_with_duplicates", "merge_with_empty_section", "merge_same_object_twice", "violation_class_fired",
                                                         "unreadable_enoent", "unreadable_eio", "unreadable_directory", "gate_prepopulated"]},
         "probes": probes,
         "skipped": skipped,
